@@ -29,12 +29,12 @@ META = dict(
            "np.empty/np.zeros -> object arrays",
            "srs_frf: scipy.interpolate.interp1d (linear, fill 0) with concrete abscissae -> piecewise-linear combination of the symbolic ordinates; abs() of a complex symbolic value -> "
            "non-negative root symbol compared with other roots through the squares"],
-    outside=["rolloff resampling (fft / lanczos / prefilter / linear): accuracy of resampling", "vrs, srsmap (FFT, Miles estimate)", "srs_frf beyond 2-4 FRF lines and 1-2 analysis frequencies; srs_frq=None, scale_by_Q_only, getresp",
+    outside=["rolloff resampling (fft / lanczos / prefilter / linear): accuracy of resampling", "srsmap (FFT); vrs beyond concrete integration grids of 5-8 points with the PSD specified on the grid itself (linear=True), log-log PSD interpolation inside vrs, the step-size warning", "srs_frf beyond 2-4 FRF lines and 1-2 analysis frequencies; srs_frq=None, scale_by_Q_only, getresp",
              "the coefficient formulas between grid points (exp/sin/cos of Q, w, dT)", "parallel execution (C09)"],
     assumptions=["signal samples in [-1, 1]", "for ic in {zero, mshift} the input is taken as zero up to one sample before the first sample and linear in between "
                  "(what a ramp-invariant filter started from rest means); for ic in {shift, steady} the (shifted) input starts at zero at t = 0",
                  "total/residual windows (one appended cycle of ceil(sr/fn) samples) only at sr/fn <= 10", "tolerance: 1e-9 relative to the 1-norm of the reference linear form for sr/fn <= 100, 1e-6 for sr/fn = 2000 (conditioning of the ramp-invariant coefficients)"],
-    reach_required=["frf", "frf-complex", "hist-primary", "hist-total", "hist-residual", "ic-steady", "ic-mshift", "fn-zero", "peak-stat", "identities", "packaging"],
+    reach_required=["frf", "frf-complex", "vrs", "hist-primary", "hist-total", "hist-residual", "ic-steady", "ic-mshift", "fn-zero", "peak-stat", "identities", "packaging"],
     trusted_base=["z3 5.1", "mpmath reference (van-Loan exponential, 80 digits)", "lfilter model (validated against SciPy each run)"],
 )
 
@@ -711,6 +711,148 @@ def job_frf(frf_frq, srs_frq, Q, cplx):
 REPLAY["frf"] = replay_frf
 
 
+# ---------------------------------------------------------------------------
+# vrs and its Miles estimate: symbolic PSD values on a concrete, non-uniform integration grid
+
+def _vrs_ref(freq, Fn, Q):
+    """per analysis frequency fn the exact weights w_i = (1 + (p_i/Q)^2) / ((1 - p_i^2)^2 + (p_i/Q)^2) * dfreq_i, p_i = freq_i/fn,
+    dfreq_i the width of the band centred on freq_i (half the distance between its neighbours; the first and the last
+    band take the full first / last step, as the function's 'delta_f for area calculation' block states)"""
+    import mpmath as mp
+    mp.mp.dps = 40
+    f = [mp.mpf(float(x)) for x in freq]
+    n = len(f)
+    d = [f[1] - f[0]] + [(f[k + 1] - f[k - 1]) / 2 for k in range(1, n - 1)] + [f[-1] - f[-2]]
+    W = []
+    for fn_ in Fn:
+        row = []
+        for k in range(n):
+            p_ = f[k] / mp.mpf(float(fn_))
+            row.append((1 + (p_ / Q) ** 2) / ((1 - p_ ** 2) ** 2 + (p_ / Q) ** 2) * d[k])
+        W.append(row)
+    return W
+
+
+def vrs_fn(freq, Fn, Q, ncol, getresp):
+    """PSD given on the integration grid itself (linear interpolation reproduces it), ncol = 0: the 1d second form of spec"""
+    def fn(eng):
+        import mpmath as mp
+        S.set_engine(eng)
+        import pyyeti.srs as srs
+        import pyyeti.psd as psdm
+        pf = rebind([psdm.proc_psd_spec, psdm.interp], dict(np=NPF(), interp1d=_Interp1d))
+        psd_mod = types.SimpleNamespace(proc_psd_spec=pf["proc_psd_spec"], interp=pf["interp"])
+        f = rebind([srs.vrs], dict(np=NPF(), interp=_InterpMod, psd=psd_mod))["vrs"]
+        n, nc = len(freq), max(ncol, 1)
+        info = dict(freq=list(freq), Fn=None if Fn is None else list(Fn), Q=Q, ncol=ncol, getresp=getresp)
+        P = [[z3.Real("P%d_%d" % (i, j)) for j in range(nc)] for i in range(n)]
+        for row in P:
+            for v in row:
+                eng.assume(z3.And(v >= 0, v <= 1))
+        PS = np.empty((n, nc), dtype=object)
+        for i in range(n):
+            for j in range(nc):
+                PS[i, j] = NonNeg(P[i][j])
+        fr = np.array(freq, float)
+        try:
+            import warnings
+            with warnings.catch_warnings():
+                warnings.simplefilter("ignore", RuntimeWarning)     # the step-size warning (coarse grids on purpose)
+                out = f((fr, PS if ncol else PS[:, 0]), fr, Q, True, Fn=None if Fn is None else np.array(Fn, float), getmiles=True, getresp=getresp)
+        except E.Inconclusive:
+            raise
+        except Exception as ex:
+            import traceback
+            return [E.Obl("vrs raises %r (%s)" % (ex, traceback.format_exc()[-300:]), False, info=info)]
+        eng.tag("vrs")
+        z, zm = out[0], out[1]
+        FN = list(freq) if Fn is None else list(Fn)
+        shape = (len(FN), ncol) if ncol else (len(FN),)
+        obls = [E.Obl("vrs: one value per analysis frequency and PSD", np.shape(z) == shape and np.shape(zm) == shape, info=info)]
+        if np.shape(z) != shape or np.shape(zm) != shape:
+            return obls
+        z = np.asarray(z, dtype=object).reshape(len(FN), nc)
+        zm = np.asarray(zm, dtype=object).reshape(len(FN), nc)
+        # the integration grid is `freq` merged with Fn; the PSD there is the linear interpolation of the specification
+        G = sorted(set(float(x) for x in freq) | set(float(x) for x in FN))
+        W = _vrs_ref(G, FN, Q)
+        q = lambda t: z3.RealVal(Fraction(int(t * mp.mpf(10) ** 30), 10 ** 30))
+
+        def pint(v, j):
+            i0 = max(0, min(int(np.searchsorted(freq, v, side="right")) - 1, n - 2))
+            w = Fraction(float(v) - float(freq[i0])) / Fraction(float(freq[i0 + 1]) - float(freq[i0]))
+            return P[i0][j] + (P[i0 + 1][j] - P[i0][j]) * z3.RealVal(w)
+        eps = z3.RealVal("1e-9")
+        sq = lambda g: g.of if isinstance(g, S.SymRoot) else S.lift(g) * S.lift(g)
+        for k, fn_ in enumerate(FN):
+            for j in range(nc):
+                ref = z3.Sum([q(W[k][i]) * pint(G[i], j) for i in range(len(G))])
+                g2 = sq(z[k, j])
+                obls.append(E.Obl("vrs[%g Hz, PSD %d]^2 = sum_i |H(freq_i/fn)|^2 PSD(freq_i) dfreq_i" % (fn_, j), z3.And(g2 >= ref * (1 - eps), g2 <= ref * (1 + eps)), info=info))
+                # Miles: pi/2 fn Q PSD(fn), PSD(fn) linearly interpolated on the grid
+                pfn = pint(fn_, j)
+                mref = q(mp.pi / 2 * mp.mpf(float(fn_)) * Q) * pfn
+                m2 = sq(zm[k, j])
+                obls.append(E.Obl("Miles estimate[%g Hz, PSD %d]^2 = pi/2 fn Q PSD(fn)" % (fn_, j), z3.And(m2 >= mref * (1 - eps), m2 <= mref * (1 + eps)), info=info))
+        return obls
+    return fn
+
+
+def replay_vrs(p):
+    import pyyeti.srs as srs
+    mdl = p["model"]
+    freq, Fn, Q, ncol = p["freq"], p["Fn"], p["Q"], p["ncol"]
+    n, nc = len(freq), max(ncol, 1)
+
+    def g(k, d):
+        try:
+            return float(Fraction(mdl[k]))
+        except Exception:
+            return d
+    msgs = []
+    for attempt in (0, 1):
+        P = np.array([[g("P%d_%d" % (i, j), 0.0) if attempt == 0 else 0.2 + 0.1 * ((i * 7 + j * 3) % 5) for j in range(nc)] for i in range(n)])
+        fr = np.array(freq, float)
+        import warnings
+        with warnings.catch_warnings():
+            warnings.simplefilter("ignore", RuntimeWarning)
+            out = srs.vrs((fr, P if ncol else P[:, 0]), fr, Q, True, Fn=None if Fn is None else np.array(Fn, float), getmiles=True, getresp=p["getresp"])
+        z = np.asarray(out[0], float).reshape(-1, nc)
+        zm = np.asarray(out[1], float).reshape(-1, nc)
+        FN = freq if Fn is None else Fn
+        G = sorted(set(float(x) for x in freq) | set(float(x) for x in FN))
+        W = _vrs_ref(G, FN, Q)
+        for k, fn_ in enumerate(FN):
+            for j in range(nc):
+                want = float(sum(W[k][i] * float(np.interp(G[i], freq, P[:, j])) for i in range(len(G))))
+                if abs(z[k, j] ** 2 - want) > 1e-7 * max(want, 1e-12):
+                    msgs.append("vrs(freq=%s, PSD=%s, Q=%g)[%g Hz]^2 = %r, sum_i |H|^2 PSD dfreq (centred band widths) = %r" % (freq, P[:, j].tolist(), Q, fn_, z[k, j] ** 2, want))
+                pfn = float(np.interp(fn_, freq, P[:, j]))
+                wantm = np.pi / 2 * fn_ * Q * pfn
+                if abs(zm[k, j] ** 2 - wantm) > 1e-7 * max(wantm, 1e-12):
+                    msgs.append("Miles estimate(freq=%s, PSD=%s, Q=%g)[%g Hz]^2 = %r, pi/2 fn Q PSD(fn) = %r" % (freq, P[:, j].tolist(), Q, fn_, zm[k, j] ** 2, wantm))
+        if msgs:
+            return True, "; ".join(msgs[:2])
+    return False, "vrs fine on the real code"
+
+
+def job_vrs(freq, Fn, Q, ncol, getresp):
+    eng = E.Engine(obl_timeout_ms=120000)
+    eng.obl_mode = "each"
+    res = eng.explore(vrs_fn(freq, Fn, Q, ncol, getresp), max_cex=3)
+    res["note"] = "vrs freq=%s Fn=%s Q=%g ncol=%d getresp=%s" % (freq, Fn, Q, ncol, getresp)
+
+    def payload(c):
+        d = dict((c.get("info") or [{}])[0])
+        d["model"] = c["model"]
+        return d
+    H.triage(res, "vrs", replay_vrs, payload)
+    return res
+
+
+REPLAY["vrs"] = replay_vrs
+
+
 def job_validate():
     bad = validate_lfilter()
     r = dict(paths=0, obligations=0, unsat=0, note="lfilter model vs scipy.signal.lfilter on 20 random filters: %d mismatches" % bad)
@@ -750,6 +892,10 @@ def jobs(tier, seed):
         fr += [([10.0, 20.0], [30.0], 5, True), ([5.0, 10.0, 20.0], [12.0], 10, True), ([5.0, 10.0, 20.0, 40.0], [25.0], 25, False)]
     for a in fr:
         out.append(H.Job("frf-%s-%s-%g-%s" % a, job_frf, *a, weight=20))
+    # vrs: (integration grid [non-uniform], Fn or None, Q, PSD columns [0: 1d form], getresp)
+    for a in [((10.0, 12.0, 15.0, 20.0, 28.0, 40.0), None, 10.0, 0, False), ((10.0, 12.0, 15.0, 20.0, 28.0, 40.0), (15.0, 24.0), 5.0, 2, True)] + \
+            ([] if q else [((5.0, 6.0, 8.0, 11.0, 15.0, 20.0, 30.0, 45.0), (8.0, 12.5, 30.0), 25.0, 1, False), ((1.0, 2.0, 4.0, 8.0, 16.0), None, 0.75, 2, True)]):
+        out.append(H.Job("vrs-%d-%s-%g-%d-%s" % (len(a[0]), "grid" if a[1] is None else len(a[1]), a[2], a[3], a[4]), job_vrs, *a, weight=10))
     if not q:
         out.append(H.Job("identities-2", job_ident, 0.6, sr, (40.0, 400.0), 4, weight=60))
     return out
